@@ -179,6 +179,23 @@ def _generate(c):
         s.prefit_dies = ch.boolean("f", 0.5, "fit-before-dies")
         s.prefit_site = ch.draw("f", 64, "site-position")
         s.prefit_kind = ch.weighted("f", [("runtime", 3), ("value", 2), ("cancel", 1)], "fault-kind")
+    # a second piecewise estimator built around the *same* binner and local
+    # estimator objects is fitted on other data afterwards
+    s.shared = ch.boolean("w", 0.2, "inner-objects-shared-with-a-second-estimator")
+    if s.shared:
+        rs3 = numpy.random.RandomState(ch.subseed("w", "data-second"))
+        n1 = ch.integer("w", 8, 30, "n-second")
+        X1 = U.unique_rows(rs3, n1, s.d, "normal") * 2.1 - 0.7
+        if s.kind == "reg":
+            y1 = X1 @ rs3.randn(s.d) * 3 + 5 + 0.1 * rs3.randn(n1)
+        else:
+            lab = numpy.unique(s.y)
+            y1 = lab[(numpy.arange(n1) + 1) % len(lab)]
+        if s.xdtype == "int64":
+            X1 = numpy.round(X1 * 8).astype(numpy.int64) * (n1 + 1) + numpy.arange(n1)[:, None]
+        elif s.xdtype == "float32":
+            X1 = X1.astype(numpy.float32)
+        s.X1, s.y1 = X1, y1
     s.g = ch.subseed("r", "global-seed")
     s.os_base = ch.subseed("r", "os-entropy-base")
     return s
@@ -253,6 +270,16 @@ def _execute(c, s, n_jobs, seen):
         _viol(c, s, "inputs-modified", (), "fit modified the caller's data", seen)
     X, y, w = s.X, s.y, s.w
     out = []
+    if s.shared:
+        second = type(model)(**model.get_params(deep=False))  # same binner / estimator objects
+        c.sched_cfg = None
+        ok1, _ = U.sut(c, "second.fit (shares the inner objects)", second.fit, s.X1, s.y1)
+        c.sched_cfg = None
+        c.entropy = E.Entropy("pinned")
+        c.entropy.os_by_task = s.os_base
+        numpy.random.seed(s.g % (2**32 - 1))
+        if ok1:
+            c.probe("second_estimator_fitted_around_the_same_inner_objects")
     # ---- (a) partition of the training rows
     ok, assoc = U.sut(c, "transform_bins", model.transform_bins, X)
     if not ok:
@@ -449,6 +476,7 @@ def run(c, index, tier):
         "data_seed": s.data_seed,
         "fitted_before": s.prefit,
         "y_and_weights_as_series": s.series,
+        "inner_objects_shared": s.shared,
         "schedules": [],
     }
     c.signature = [c.scenario["estimator"], s.binner_kind, s.peer_name, s.ltype, s.w is not None, s.random_state is None, s.n // 8, s.d]
